@@ -492,19 +492,15 @@ theorem dropWhile_eq_filter (st : Bytes) : ∀ (l : List (Bytes × Bytes)), Asc 
 theorem seekIdx_head (st x : Bytes) (xs : List Bytes) (h : ble st x = true) : seekIdx st (x :: xs) = some 0 := by
   simp [seekIdx, h]
 
-/-- the stored keys from `start` on all carry the prefix (for a nil start: all keys) -/
-def PrefixClosed (s : Spec) (p : Bytes) (start : Option Bytes) : Prop :=
-  ∀ kv ∈ s, (match start with | none => True | some st => ble st kv.1 = true) → hasPrefix p kv.1 = true
-
-theorem R.iterWS_none {m s} (r : R m s) (p : Bytes) (rev : Bool) (hc : PrefixClosed s p none) :
+theorem R.iterWS_none {m s} (r : R m s) (p : Bytes) (rev : Bool) :
     Mem.iterWS m p none rev = ((Spec.iterWS s p none rev).1.map liftKV, (Spec.iterWS s p none rev).2.map liftKV) := by
-  have hk := r.sorted_keys (fun _ => true)
-  have hrange : Spec.iterPrefix s p = s.filter (fun _ => true) := by
+  have hk := r.sorted_keys (fun k => hasPrefix p k && true)
+  have hrange : Spec.iterPrefix s p = s.filter (fun kv => hasPrefix p kv.1 && true) := by
     unfold Spec.iterPrefix
     apply List.filter_congr
-    intro kv hkv
-    exact hc kv hkv trivial
-  have hent := r.entries (s.filter (fun _ => true)) (fun kv h => (List.mem_filter.mp h).1)
+    intro kv _
+    simp
+  have hent := r.entries (s.filter (fun kv => hasPrefix p kv.1 && true)) (fun kv h => (List.mem_filter.mp h).1)
   unfold keysM at hk
   cases rev with
   | false =>
@@ -519,34 +515,35 @@ theorem R.iterWS_none {m s} (r : R m s) (p : Bytes) (rev : Bool) (hc : PrefixClo
     simp only [List.map_reverse]
     rw [hent]
 
-theorem R.iterWS_forward {m s} (r : R m s) (p st : Bytes) (hc : PrefixClosed s p (some st)) :
+theorem R.iterWS_forward {m s} (r : R m s) (p st : Bytes) :
     Mem.iterWS m p (some st) false =
       ((Spec.iterWS s p (some st) false).1.map liftKV, (Spec.iterWS s p (some st) false).2.map liftKV) := by
-  have hk := r.sorted_keys (fun k => !blt k st)
+  have hk := r.sorted_keys (fun k => hasPrefix p k && !blt k st)
   unfold keysM at hk
-  -- the abstract side: entries of the range from `st` on = all entries `≥ st`
-  have hrange : (Spec.iterPrefix s p).dropWhile (fun kv => blt kv.1 st) = s.filter (fun kv => !blt kv.1 st) := by
+  -- the abstract side: entries of the prefix range from `st` on
+  have hrange : (Spec.iterPrefix s p).dropWhile (fun kv => blt kv.1 st)
+      = s.filter (fun kv => hasPrefix p kv.1 && !blt kv.1 st) := by
     unfold Spec.iterPrefix
     rw [dropWhile_eq_filter st _ (asc_filter_keys s r.sorted _)]
     rw [List.filter_filter]
     apply List.filter_congr
-    intro kv hkv
-    cases hb : blt kv.1 st with
-    | true => simp
-    | false =>
-      have := hc kv hkv ((blt_false_iff _ _).mp hb)
-      simp [this]
-  have hent := r.entries (s.filter (fun kv => !blt kv.1 st)) (fun kv h => (List.mem_filter.mp h).1)
+    intro kv _
+    exact Bool.and_comm _ _
+  have hent := r.entries (s.filter (fun kv => hasPrefix p kv.1 && !blt kv.1 st)) (fun kv h => (List.mem_filter.mp h).1)
   simp only [Mem.iterWS, Mem.sortedKeys, Spec.iterWS, hrange]
   rw [hk]
   simp only [Bool.false_eq_true, if_false]
-  cases hL : s.filter (fun kv => !blt kv.1 st) with
+  cases hL : s.filter (fun kv => hasPrefix p kv.1 && !blt kv.1 st) with
   | nil => simp [seekIdx]
   | cons x xs =>
     have hx : ble st x.1 = true := by
-      have : x ∈ s.filter (fun kv => !blt kv.1 st) := by rw [hL]; simp
+      have : x ∈ s.filter (fun kv => hasPrefix p kv.1 && !blt kv.1 st) := by rw [hL]; simp
       have := (List.mem_filter.mp this).2
-      exact (blt_false_iff _ _).mp (by simpa using this)
+      have h2 : blt x.1 st = false := by
+        cases hb : blt x.1 st with
+        | false => rfl
+        | true => rw [hb] at this; simp at this
+      exact (blt_false_iff _ _).mp h2
     rw [hL] at hent
     simp only [List.map_cons] at hent ⊢
     rw [seekIdx_head st x.1 _ hx]
